@@ -91,6 +91,9 @@ func c06Exec(op string) string {
 			return "bad-op " + c.err.Error()
 		}
 		m := toFloats(mv).(map[string]interface{})
+		if len(op)%2 == 0 {
+			internShared(m) // one sub-map or list referenced from several places is not a cycle
+		}
 		b, err := mxj.Map(m).Json(safe)
 		if err != nil {
 			return "err " + oneLine(err.Error())
@@ -128,6 +131,18 @@ func c06Exec(op string) string {
 		}
 		if string(b) != kept {
 			notes = append(notes, "KEPT the bytes Json() returned changed during later encoder calls")
+		}
+		if sm := shareSome(m); len(notes) == 0 && len(sm) != len(m) {
+			// a Map that references one sub-map from several places (not a cycle) is encoded like the
+			// tree it denotes, and Copy returns that tree
+			sb, serr := mxj.Map(sm).Json(safe)
+			if serr != nil || !json.Valid(sb) {
+				notes = append(notes, fmt.Sprintf("SHARED Json() of a Map with a sub-map referenced from two places fails or is invalid (%v)", serr))
+			} else if back, derr := mxj.NewMapJson(sb); derr != nil || !deepEq(map[string]interface{}(back), sm) {
+				notes = append(notes, "SHARED NewMapJson(Json(m)) differs from m for a Map with a shared sub-map")
+			} else if c3, cerr := mxj.Map(sm).Copy(); cerr != nil || !deepEq(map[string]interface{}(c3), sm) {
+				notes = append(notes, "SHARED Copy() of a Map with a shared sub-map fails or differs")
+			}
 		}
 		if wn := wrapMapToJson(m, safe); wn != "" {
 			notes = append(notes, wn)
